@@ -243,6 +243,21 @@ def case_proj(hist):
         cmp_obj(v, "proj/inverse-product", cls, (inv @ Ts[k - 1]) @ Y[k - 1], data_of(Y[k - 1]), aux_of(Y[k - 1]), 1e-9)
         cmp_obj(v, "proj/inverse-product", cls, (Ts[k - 1] @ inv) @ Y[k - 1], data_of(Y[k - 1]), aux_of(Y[k - 1]), 1e-9)
         t += 6
+    if k >= 1:
+        # transformations that have already answered a query (inv) are composed again: a product must
+        # not inherit anything from its factors (e.g. a memoised inverse carried along by copy())
+        oname = PROJ_GENS[(PROJ_GENS.index(ops[-1]) + 3) % len(PROJ_GENS)]
+        other, mo = make_T(oname, n)
+        other.inv()
+        for (L_, R_, ML, MR, tag) in ((other, Ts[k - 1], mo, Ms[k - 1], "queried-right-factor"),
+                                      (Ts[k - 1], other, Ms[k - 1], mo, "queried-left-factor")):
+            Q = L_ @ R_
+            Qi = Q.inv()
+            t += 4
+            if not close(Qi.proj_data, np.linalg.inv(ML @ MR).T, 1e-9):
+                v.append(V("proj/inverse-of-product/%s" % tag, "(%s @ %s).inv() has row matrix\n%r\nexpected\n%r" % (
+                    oname if L_ is other else ops[-1], ops[-1] if L_ is other else oname, Qi.proj_data, np.linalg.inv(ML @ MR).T)))
+            cmp_obj(v, "proj/inverse-of-product/%s/action" % tag, cls, Qi @ (Q @ Y[k - 1]), data_of(Y[k - 1]), aux_of(Y[k - 1]), 1e-9)
     # derived data recomputed from the primary data of the result
     if cls == "Polygon":
         yk = Y[k]
@@ -605,6 +620,73 @@ def case_rep(case):
             "nt": len(word) >= 2}
 
 
+def case_rep_bulk(case):
+    """Bulk accessors (elements / transformations / isometries) of a representation whose generators
+    were assigned in a given order and with given dtypes agree, word by word, with rep[w] and with the
+    oracle product, including their action on a point."""
+    from geometry_tools import projective as P, hyperbolic as H
+    kind, m, order, dt, L = case["kind"], case["m"], case["order"], case["dtypes"], case["L"]
+    if kind == "proj":
+        a, b = rep_generators("proj", m, True)
+        a = a.astype(complex)
+        b = np.real(b)                      # a genuinely complex, b real
+        if dt == "int":
+            a = np.round(np.real(a)).astype(np.int64)
+            b = np.round(b).astype(np.int64)
+        elif dt == "complex-then-real":
+            b = b.astype(float)
+        elif dt == "float":
+            a, b = np.real(a).astype(float), b.astype(float)
+        Cls, Rep, Pt = P.Transformation, P.ProjectiveRepresentation, P.Point
+    else:
+        a, b = rep_generators("hyp", m, False)
+        Cls, Rep, Pt = H.Isometry, H.HyperbolicRepresentation, H.Point
+    gens = {"a": a, "b": b}
+    rep = Rep()
+    for name in order:
+        g = gens[name.lower()]
+        g = g if name.islower() else np.linalg.inv(g)
+        rep[name] = Cls(g.copy(), column_vectors=True)
+    words = list(all_words(L))
+    v, t = [], 0
+    A, B = a.astype(complex), b.astype(complex)
+    exp = np.array([word_matrix(w, A, B) for w in words])
+    singles = np.array([rep[w].proj_data.T.astype(complex) for w in words])
+    t += len(words)
+    if not np.max(np.abs(singles - exp)) <= 1e-9 * (1 + np.max(np.abs(exp))):
+        v.append(V("rep/bulk/single-word/%s/%s" % (kind, dt), "rep[w] differs from the oracle product for some word"))
+        return {"v": v, "t": t, "o": "single", "nt": True}
+    accessors = [("elements", lambda: rep.elements(words))]
+    if hasattr(rep, "transformations"):
+        accessors.append(("transformations", lambda: rep.transformations(words)))
+    if kind == "hyp":
+        accessors.append(("isometries", lambda: rep.isometries(words)))
+    if kind == "proj":
+        pt = rows(3, 1, m, True)[0]
+    else:
+        K = lattice.klein_points(m - 1, m_generic=2, seed=0)
+        pt = hyp.klein_to_projective(K[-1])
+    expimg = np.einsum("wij,j->wi", exp, pt.astype(complex))
+    for name, f in accessors:
+        T = f()
+        t += 1
+        got = np.swapaxes(np.asarray(T.proj_data), -1, -2).astype(complex)
+        if got.shape != exp.shape:
+            v.append(V("rep/bulk/%s/shape" % name, "shape %r, expected %r" % (got.shape, exp.shape)))
+            continue
+        bad = [w for w, g, e in zip(words, got, exp) if not np.max(np.abs(g - e)) <= 1e-9 * (1 + np.max(np.abs(e)))]
+        if bad:
+            v.append(V("rep/bulk/%s/value/%s/%s" % (name, kind, dt), "%s(words) differs from rep[w] for %d words, e.g. %r: got\n%r\nexpected\n%r (generators assigned in order %r)"
+                       % (name, len(bad), bad[0], got[words.index(bad[0])], exp[words.index(bad[0])], order)))
+            continue
+        img = T @ Pt(pt.copy())
+        t += 1
+        e = float(np.max(hyp.proj_sin_err(np.asarray(img.proj_data).astype(complex), expimg)))
+        if not e <= 1e-9:
+            v.append(V("rep/bulk/%s/action/%s/%s" % (name, kind, dt), "%s(words) @ p differs from M_w p^T (sin err %.3g)" % (name, e)))
+    return {"v": v, "t": t, "o": repr((kind, m, tuple(order), dt)), "nt": True}
+
+
 def all_words(L):
     for l in range(L + 1):
         for w in itertools.product("abAB", repeat=l):
@@ -656,6 +738,13 @@ def run(ctx):
         cfgs += [("hyp", m, False, s) for m in (3, 4) for s in ("col", "row")]
         cases = [{"kind": k, "m": m, "cx": cx, "supply": s, "word": w, "seed": ctx.seed}
                  for (k, m, cx, s) in cfgs for w in all_words(L)]
+        orders = [["a", "b"], ["b", "a"], ["a", "b", "a"], ["A", "b"], ["b", "A"], ["a", "B"]]
+        bulk = [{"kind": "proj", "m": m, "order": o, "dtypes": dt, "L": 3 if q else 4}
+                for m in (2, 3) for o in orders for dt in ("complex-then-real", "int", "float")]
+        bulk += [{"kind": "hyp", "m": m, "order": o, "dtypes": "float", "L": 3 if q else 4} for m in (3, 4) for o in orders[:3]]
+        ctx.product("representations-bulk", "checks.c03:case_rep_bulk", bulk, chunk=2,
+                    domains={"assignment orders": orders, "generator dtypes": ["complex a + real b", "int64 a, b", "float64"],
+                             "accessors": ["elements", "transformations", "isometries"], "words": "all words over {a,b,A,B} up to length %d" % (3 if q else 4)})
         ctx.product("representations", "checks.c03:case_rep", cases, chunk=128,
                     domains={"configurations": len(cfgs), "words": "all words over {a,b,A,B} of length <= %d" % L,
                              "points": "a single point, a composite (3,) point, a stacked composite (2,) point",
